@@ -316,6 +316,11 @@ func selectSetForRecursion(ctx context.Context, scope *ReferenceScope, view *Vie
 	}
 
 	if rview.RecordLen() < 1 {
+		if set.Operator.Token == parser.UNION && set.All.IsEmpty() {
+			// the result sets are combined by UNION: duplicates of the base result go as well,
+			// also when the recursive query adds nothing
+			return view.Union(ctx, scope.Tx.Flags, rview, false)
+		}
 		return nil
 	}
 
